@@ -83,6 +83,7 @@ fn belt_key(k: &[u8]) -> Option<[u32; 8]> {
 macro_rules! routes {
     ($C:ty, $E:ty, $D:ty, $route:expr, $key:expr) => {{
         let key = $key;
+        zero::paint_stack(0x5A);
         let r: Option<Box<dyn Obj>> = match $route {
             "c.new" => <$C>::new_from_slice(key).ok().map(|c| Box::new(Full(c)) as Box<dyn Obj>),
             "e.new" => <$E>::new_from_slice(key).ok().map(|c| Box::new(EncOnly(c)) as Box<dyn Obj>),
@@ -100,46 +101,61 @@ macro_rules! routes {
                 Box::new(DecOnly(d)) as Box<dyn Obj>
             }),
             "c.clone" => <$C>::new_from_slice(key).ok().map(|c| {
+                zero::paint_stack(0xA5);
                 let d = c.clone();
                 drop(c);
+                zero::paint_stack(0x3C);
                 Box::new(Full(d)) as Box<dyn Obj>
             }),
             "e.clone" => <$E>::new_from_slice(key).ok().map(|c| {
+                zero::paint_stack(0xA5);
                 let d = c.clone();
                 drop(c);
+                zero::paint_stack(0x3C);
                 Box::new(EncOnly(d)) as Box<dyn Obj>
             }),
             "d.clone" => <$D>::new_from_slice(key).ok().map(|c| {
+                zero::paint_stack(0xA5);
                 let d = c.clone();
                 drop(c);
+                zero::paint_stack(0x3C);
                 Box::new(DecOnly(d)) as Box<dyn Obj>
             }),
             "c.clone_from_e" => <$E>::new_from_slice(key).ok().map(|e| {
                 let c = <$C>::from(&e);
+                zero::paint_stack(0xA5);
                 let c2 = c.clone();
                 drop(c);
                 drop(e);
+                zero::paint_stack(0x3C);
                 Box::new(Full(c2)) as Box<dyn Obj>
             }),
             "d.clone_from_e" => <$E>::new_from_slice(key).ok().map(|e| {
                 let c = <$D>::from(&e);
+                zero::paint_stack(0xA5);
                 let c2 = c.clone();
                 drop(c);
                 drop(e);
+                zero::paint_stack(0x3C);
                 Box::new(DecOnly(c2)) as Box<dyn Obj>
             }),
             "c.from_eclone" => <$E>::new_from_slice(key).ok().map(|e| {
+                zero::paint_stack(0xA5);
                 let e2 = e.clone();
                 drop(e);
+                zero::paint_stack(0x3C);
                 Box::new(Full(<$C>::from(e2))) as Box<dyn Obj>
             }),
             "d.from_eclone" => <$E>::new_from_slice(key).ok().map(|e| {
+                zero::paint_stack(0xA5);
                 let e2 = e.clone();
                 drop(e);
+                zero::paint_stack(0x3C);
                 Box::new(DecOnly(<$D>::from(e2))) as Box<dyn Obj>
             }),
             _ => return Some("bad-op".into()),
         };
+        zero::paint_stack(0xC3);
         match r {
             Some(o) => probe(&*o),
             None => "err-len".into(),
